@@ -20,6 +20,7 @@ import (
 	"crypto/sha1"
 	"encoding/hex"
 	"fmt"
+	"runtime/debug"
 	"sort"
 	"strings"
 
@@ -32,8 +33,9 @@ import (
 )
 
 func init() {
-	register("modgraph", func(args []string) int { return lineLoop(modgraphLine) })
-	register("repeat", func(args []string) int { return lineLoop(repeatLine) })
+	// unbounded recursion (finding A8) should end the worker quickly, not after growing a 1 GB stack
+	register("modgraph", func(args []string) int { debug.SetMaxStack(64 << 20); return lineLoop(modgraphLine) })
+	register("repeat", func(args []string) int { debug.SetMaxStack(64 << 20); return lineLoop(repeatLine) })
 }
 
 // diagClassTable: class of an analyzer message by prefix (and, where the prefix is not enough,
